@@ -4,8 +4,8 @@
 # 2. applies patch.diff to /repo, runs every registered check, restores /repo
 export GOFLAGS=-mod=mod GOPROXY=off GOSUMDB=off GOTOOLCHAIN=local
 id=$1
-sd=/tmp/seed_$id
-wt=/tmp/wt_$id
+sd=${SEEDDIR:-/tmp/seed_$id}
+wt=${WTDIR:-/tmp/wt_$id}
 if [ "$2" = "verify" ]; then
   cd $wt || exit 1
   # make the worktree match patch.diff exactly (agents shared a stash stack)
